@@ -42,7 +42,7 @@ ASSUMPTIONS = [
 PROBES = ["remove_head_then_insert_before_tail", "reorder_the_only_element",
           "reorder_head_tail_adjacent", "delete_then_reinsert_in_other_case",
           "copy_then_diverge", "failing_op_keyerror", "failing_op_valueerror_self_reorder",
-          "failing_op_invalid_value", "gc_step", "reparsed_handle", "paragraph_read_from_a_stream_of_several", "sort_custom_key",
+          "failing_op_invalid_value", "gc_step", "reparsed_handle", "paragraph_read_from_a_stream_of_several", "paragraph_with_over_a_thousand_fields", "sort_custom_key",
           "clear_then_reuse", "step_without_observation", "sort_key_with_ties",
           "sort_key_consults_the_mapping", "quiet_observer"]
 
@@ -131,6 +131,10 @@ def generate(seed, run, tier):
         elif k == "reparse":
             st["how"] = rq.choice(["str", "str", "bytes", "file", "lines"])
         steps.append(st)
+    if rs.random() < 0.002:
+        steps.insert(rq.randrange(len(steps) + 1),
+                     {"h": rq.randrange(4), "op": "bulk", "n": rs.choice([300, 1100, 1100]),
+                      "observe": True})
     return {"world": {"start": start, "items": items, "before": before,
                       # a client that only ever uses the spelling it stored, and never asks
                       # for keys that are not there (what it looks at is part of the schedule)
@@ -311,6 +315,14 @@ def execute(case):
                     del sut[hi]
                     del model[hi]
                     inter.append((hi, "drop"))
+            elif op == "bulk":
+                # a paragraph with very many fields (more than any recursion or table limit)
+                hi = st["h"] % len(sut)
+                for i_ in range(st["n"]):
+                    sut[hi]["Bulk-%05d" % i_] = "v"
+                    model[hi].set("Bulk-%05d" % i_, "v")
+                out.probe("paragraph_with_over_a_thousand_fields")
+                inter.append((hi, "bulk"))
             elif op in ("copy", "reparse"):
                 if len(sut) >= 4:
                     continue
@@ -422,7 +434,9 @@ def execute(case):
                         out.probe("sort_custom_key")
                         if len(set(f(r[1]) for r in m.rows)) < len(m.rows):
                             out.probe("sort_key_with_ties")
-                        call = lambda: d.sort_fields(key=f)
+                        # the client writes its key function where it calls sort_fields: a
+                        # new, short-lived function object every time
+                        call = lambda: d.sort_fields(key=lambda name_: f(name_))
                 else:
                     continue
                 if expect is not None:
